@@ -490,13 +490,23 @@ def apply_params(sig, posargs, pokargs, varargs, kwoargs, varkwargs,
     parameters.extend(kwoargs.values())
     if varkwargs:
         parameters.append(varkwargs)
-    sig = sig.replace(parameters=parameters, _stacklevel=_stacklevel + 1)
-    if sources is not None:
-        sig = Signature._upgrade(sig, function, sources, _stacklevel=1)
-        sig.sources = sources
-    else:
+    if sources is None:
         # replace() hands over the very map of the input signature
-        sig.sources = copy_sources(sig.sources)
+        sources = copy_sources(sig.sources)
+    # the parameters carry their own view of the sources: bring it in line
+    # with the map of the result rather than keep (and share) the inputs'
+    depths = sources.get('+depths', {})
+    parameters = [
+        param.replace(
+            sources=list(sources.get(param.name, ())),
+            source_depths=dict(
+                (func, depths[func])
+                for func in sources.get(param.name, ()) if func in depths))
+        if isinstance(param, UpgradedParameter) else param
+        for param in parameters]
+    sig = sig.replace(parameters=parameters, _stacklevel=_stacklevel + 1)
+    sig = Signature._upgrade(sig, function, sources, _stacklevel=1)
+    sig.sources = sources
     return sig
 
 
